@@ -172,7 +172,7 @@ def main():
          "engines": [
             {"name": "lean-model", "path": "lean/", "serves_properties": sorted(p for p in CHECKS if os.path.exists(os.path.join(V, "lean", "BitcaskVerif", "Props", p + ".lean"))), "kind_free_text": "Lean 4 model + theorems + compiled line-protocol driver"},
             {"name": "bcharness", "path": "harness/", "serves_properties": sorted(p for p in CHECKS if os.path.exists(os.path.join(V, "lean", "BitcaskVerif", "Props", p + ".lean"))), "kind_free_text": "Rust harness executing the real code on the same line protocol"},
-            {"name": "iotrace", "path": "iotrace/iotrace.c", "serves_properties": [p for p in sorted(CHECKS) if p in ("C03","C09","C14","C20","C04","C17","C18")], "kind_free_text": "LD_PRELOAD file-system call recorder / fault injector"}],
+            {"name": "iotrace", "path": "iotrace/iotrace.c", "serves_properties": [p for p in sorted(CHECKS) if p in ("C01","C02","C03","C04","C05","C09","C12","C13","C14","C15","C17","C18","C19","C20")], "kind_free_text": "LD_PRELOAD layer: file-system call recorder / fault injector / write pauser; fails accept(2) calls (C15); shifts or stops CLOCK_REALTIME (store histories of C01 C02 C05 C12 C13 C19)"}],
          "checks": [], "not_applicable": [],
          "notes": "All checks: python3 tools/check.py Cxx --tier quick|thorough (VERIF_SEED / VERIF_TIER honoured). Known/fixed findings: known_findings.json."}
     for p in props:
